@@ -107,6 +107,23 @@ pub broadcast proof fn axiom_strip_prefix_str(s: &str, p: &str, r: Option<&str>)
         None => !(utf8(s@).len() >= utf8(p@).len() && utf8(s@).subrange(0, utf8(p@).len() as int) == utf8(p@)),
     },
 {}
+/// T15: alloy-rlp's `Vec<T>::decode` for `T = Bytes`: the input must start with a LIST whose payload is exactly a sequence of
+/// string items; the vector holds their payloads in order; the buffer is advanced past the list.
+/// (`Header::decode_bytes(buf, true)`, then `Bytes::decode` until the payload is used up.)
+#[verifier::external_body]
+pub broadcast proof fn axiom_vec_bytes_dec_ok(s: Seq<u8>)
+    ensures #[trigger] <Vec<Bytes> as DecodableSpec>::dec_ok(s) == (str_list(s) is Some),
+{}
+#[verifier::external_body]
+pub broadcast proof fn axiom_vec_bytes_dec_post(s: Seq<u8>, v: Vec<Bytes>)
+    ensures #[trigger] <Vec<Bytes> as DecodableSpec>::dec_post(s, v) ==> (str_list(s) matches Some(items)
+        && v@.len() == items.len() && forall|i: int| 0 <= i < items.len() ==> bview(&#[trigger] v@[i]) == items[i]),
+{}
+/// T16: lossy UTF-8 decoding of valid UTF-8 is the identity
+#[verifier::external_body]
+pub broadcast proof fn axiom_lossy_utf8(c: Seq<char>)
+    ensures #[trigger] lossy(utf8(c)) == c,
+{}
 /// T13: `Hash for Vec<u8>` feeds a function of the contents
 #[verifier::external_body]
 pub proof fn axiom_hash_tok_vec(a: &Vec<u8>, b: &Vec<u8>)
@@ -220,7 +237,7 @@ pub broadcast proof fn axiom_ip6_len(a: std::net::Ipv6Addr)
 {}
 
 pub broadcast group group_trusted {
-    axiom_slice_eq, axiom_slice_obeys, axiom_string_index_range, axiom_string_index_from, axiom_starts_with_str, axiom_str_get_from, axiom_trim_start_str, axiom_strip_prefix_str, axiom_bytes_from_vec, axiom_bytes_from_vec_obeys, axiom_vec_len_bound, axiom_bm_len_bound, axiom_arr_eq, axiom_arr_obeys, axiom_vec_eq, axiom_vec_obeys, axiom_string_str_eq, axiom_string_str_obeys, axiom_string_refstr_eq, axiom_string_refstr_obeys, axiom_lossy_v4, axiom_slice_ord, axiom_slice_pord_obeys,
+    axiom_slice_eq, axiom_slice_obeys, axiom_string_index_range, axiom_string_index_from, axiom_starts_with_str, axiom_str_get_from, axiom_trim_start_str, axiom_strip_prefix_str, axiom_vec_bytes_dec_ok, axiom_vec_bytes_dec_post, axiom_lossy_utf8, axiom_bytes_from_vec, axiom_bytes_from_vec_obeys, axiom_vec_len_bound, axiom_bm_len_bound, axiom_arr_eq, axiom_arr_obeys, axiom_vec_eq, axiom_vec_obeys, axiom_string_str_eq, axiom_string_str_obeys, axiom_string_refstr_eq, axiom_string_refstr_obeys, axiom_lossy_v4, axiom_slice_ord, axiom_slice_pord_obeys,
     axiom_vecu8_ord, axiom_vecu8_ord2, axiom_vecu8_borrow,
     axiom_contains_borrowed, axiom_maps_borrowed, axiom_removed_borrowed, axiom_vecu8_cmp,
     axiom_vec_ref, axiom_str_ref, axiom_vec_of, axiom_vec_from_str, axiom_vec_from_slice, axiom_vec_from_str_obeys, axiom_vec_from_slice_obeys, axiom_array_ref,
